@@ -352,7 +352,7 @@ static void make_shapes(void) {
 
 static void report(bool control, const shape* sh, const char* what, const char* fmt, ...) {
     char b[2048]; va_list ap; va_start(ap, fmt); vsnprintf(b, sizeof b, fmt, ap); va_end(ap);
-    if (control) { pv_countf(1, "control.hits.%s", API_NAME[sh->api]); pv_countf(1, "control.hits.kind.%s", what); return; }
+    if (control) { pv_countf(1, "control.hits.%s", API_NAME[sh->api]); pv_countf(1, "control.hits.kind.%s", what); PV_COUNT("control.hits.total", 1); return; }
     char key[200]; snprintf(key, sizeof key, "C16/stack-residue/%s/%s", API_NAME[sh->api], what);
     pv_violation(key, "%s path=%s lang=%s: %s", API_NAME[sh->api], PATH_NAME[sh->path], pv_langs[sh->lang].name_en, b);
 }
